@@ -84,3 +84,10 @@ class Model:
     def shape_eq(self, a, b): return W.d_res(W.d_bool, self.raw([37, W.e_shape(a), W.e_shape(b)]))
     def copy_shape(self, s): return W.d_res(W.d_shape, self.raw([38, W.e_shape(s)]))
     def shape_from_jordans(self, js): return W.d_res(W.d_shape, self.raw([39, [W.e_jordan(j) for j in js]]))
+    # ---- numbers ----
+    def norm_coord(self, q):
+        r = self.raw([40, W.e_Q(q)])
+        return W.d_Q(r[1]) if r[0] == 0 else None
+    def limit_den(self, N, num, den):
+        r = self.raw([41, N, num, den])
+        return (r[1], r[2]) if r[0] == 0 else None
